@@ -352,7 +352,22 @@ func (r *Run) Finish() {
 	cov["distinct_nontrivial"] = len(r.distinct) + r.distinctAdd
 	cov["rule"] = r.rule
 	if len(r.samples) == 0 {
+		// fall back to a few of the distinct case identities recorded during the run
 		r.samples = []any{}
+		ks := make([]string, 0, 8)
+		for k := range r.distinct {
+			ks = append(ks, k)
+			if len(ks) == 8 {
+				break
+			}
+		}
+		sort.Strings(ks)
+		for _, k := range ks {
+			if len(k) > 300 {
+				k = k[:300]
+			}
+			r.samples = append(r.samples, k)
+		}
 	}
 	cov["samples"] = r.samples
 	cov["exhaustive"] = r.exhaustive && len(r.engineErr) == 0
